@@ -129,6 +129,18 @@ func (c Cfg) params() types.Params {
 		sdk.MustNewDecFromStr(c.Slash), c.Compl, c.Arb, 4000, denom)
 }
 
+// proposed builds the parameter set of a `setparams` op as a governance proposal would carry it, WITHOUT
+// normalising it: an illegal set (tax = 1, slash > 1, multiple 0, timeout 0, a non-positive duration, a
+// negative minimum deposit) must reach Params.Validate as it is.
+func (c Cfg) proposed() types.Params {
+	md := sdk.Coins{}
+	if c.MinDeposit != 0 {
+		md = sdk.Coins{sdk.Coin{Denom: denom, Amount: sdk.NewInt(c.MinDeposit)}}
+	}
+	return types.NewParams(c.MaxTimeout, c.Multiple, md, sdk.MustNewDecFromStr(c.Tax),
+		sdk.MustNewDecFromStr(c.Slash), c.Compl, c.Arb, 4000, denom)
+}
+
 type cbRec struct {
 	kind  string // "r" response callback, "s" state callback
 	ctxID []byte
